@@ -437,6 +437,18 @@ def run_c07(tier, seed):
                         v = new_scalar(leaf, r)
                         vb = np.array([v], dtype=dt).tobytes()
                         before = bytes(buf.to_bytearray(0, cap2))
+                        # where would the accessor go?  check the address before letting it write
+                        gp = fn.replace("_set", "_getp", 1)
+                        nidx = len(kw)
+                        gp = gp if nidx == 0 else gp.replace("_getp", f"_getp{nidx}", 1)
+                        if hasattr(kctx.kernels, "__getattr__"):
+                            try:
+                                pa = int(ffi.cast("size_t", getattr(kctx.kernels, gp)(obj=obj, **kw))) - int(ffi.cast("size_t", ffi.from_buffer(buf.buffer)))
+                            except Exception:
+                                pa = pv["addr"]
+                            if pa != pv["addr"]:
+                                fails.append(common.Failure("oracle", "C07:set-wrong-bytes:after-growth", f"{fn}{kw} on {s[:200]} after the buffer grew to {cap2} bytes: the accessor addresses {pa} bytes from the current storage, the element is at {pv['addr']} (stale storage?)", ctx))
+                                break
                         getattr(kctx.kernels, fn)(obj=obj, value=v, **kw)
                         after = bytes(buf.to_bytearray(0, cap2))
                     except Exception as ex:
